@@ -59,6 +59,10 @@ def _iso_roles(world):
 
 
 def gen_query(rng, world, heavy_w):
+    if rng.random() < 0.04:
+        # queries on a small isotherm built on the spot whose first point is (0, 0): divisions by zero and log(0) inside
+        # the library, text output - sensitive to any process-wide numeric / printing mode an earlier query left behind
+        return {"g": "probe", "q": "zero_point_probe", "what": rng.choice(["spreading", "loading_at", "to_csv", "bet", "dr"])}
     q = _gen_query(rng, world, heavy_w)
     frac = world["roles"].get("fractional")
     if frac is not None and q["g"] in ("access", "interp", "spread", "export") and rng.random() < 0.25:
@@ -491,6 +495,22 @@ def exec_query(objs, q, scratch):
                 val = iso.to_json(**q["kw"])
             else:
                 val = getattr(iso, name)()
+        elif q["g"] == "probe":
+            iso = pygaps.PointIsotherm(
+                pressure=[0.0, 0.05, 0.1, 0.2, 0.35, 0.5, 0.7, 0.9], loading=[0.0, 1.0 / 3.0, 0.6, 0.9, 1.1, 1.3, 1.6, 2.2],
+                material="VfProbe", adsorbate="N2", temperature=77.355, pressure_mode="relative", loading_basis="molar",
+                loading_unit="mmol", material_basis="mass", material_unit="g", temperature_unit="K", branch="ads")
+            w = q["what"]
+            if w == "spreading":
+                val = iso.spreading_pressure_at(0.3)
+            elif w == "loading_at":
+                val = [iso.loading_at(0.0), iso.pressure_at(0.0)]
+            elif w == "to_csv":
+                val = [iso.to_csv(), str(iso)]
+            elif w == "bet":
+                val = pgc.area_BET(iso, p_limits=(0.0, 0.35))
+            else:
+                val = pgc.dr_plot(iso, p_limits=(0.0, 0.2))
         elif q["g"] == "adsorbate":
             iso = objs[q["iso"]]
             ads = iso.adsorbate
@@ -884,6 +904,8 @@ def execute(ctx, world, rng=None, steps=None, cfg=None):
                     pending = copy.deepcopy(prev)
                 elif cfg["mutators"] and rng.random() < 0.12:
                     q = gen_mutator(rng, world)
+                elif prev is not None and prev["g"] in ("n2char", "enth", "henry", "fit", "iast", "export") and rng.random() < 0.12:
+                    q = {"g": "probe", "q": "zero_point_probe", "what": rng.choice(["spreading", "loading_at", "to_csv", "bet", "dr"])}
                 elif prev is not None and prev["g"] in ("interp", "spread", "adsorbate", "n2char", "fit", "model_query", "export") \
                         and rng.random() < cfg["related_p"]:
                     q = gen_related(rng, world, prev)
